@@ -83,6 +83,35 @@ func (sp *ServiceProvider) ValidatePostSignature(authRequest string) error {
 	return signature.ValidatePost(certs, doc.Root())
 }
 
+// ValidateAttributeQuerySignature validates the enveloped signature of the attribute query carried by a SOAP envelope.
+// The signed element is the query, not the envelope: it has to be the only element in the only body.
+func (sp *ServiceProvider) ValidateAttributeQuerySignature(soapRequest string) error {
+	doc := etree.NewDocument()
+	if err := doc.ReadFromBytes([]byte(soapRequest)); err != nil {
+		return err
+	}
+
+	if doc.Root() == nil {
+		return fmt.Errorf("error while parsing request")
+	}
+
+	bodies := doc.Root().SelectElements("Body")
+	if len(bodies) != 1 {
+		return fmt.Errorf("error while parsing request: expected one soap body, found %d", len(bodies))
+	}
+	queries := bodies[0].ChildElements()
+	if len(queries) != 1 || queries[0].Tag != "AttributeQuery" {
+		return fmt.Errorf("error while parsing request: expected one attribute query in the soap body")
+	}
+
+	certs, err := getSigningCertsFromMetadata(sp.Metadata)
+	if err != nil {
+		return err
+	}
+
+	return signature.ValidatePost(certs, queries[0])
+}
+
 func (sp *ServiceProvider) ValidateRedirectSignature(request, relayState, sigAlg, expectedSig string) error {
 	if sp.signerPublicKey == nil {
 		return fmt.Errorf("error can not validate signature if no certificate is present for this service provider")
